@@ -90,8 +90,51 @@ func branches(r Rule, neg bool) int {
 
 var maxBranches = 40
 
+// wideOr: an `or` (or its dual, a negated `and`) over 3..6 alternatives, each a conjunction of 1..3 literals —
+// the shape whose expansion is a cross product of branch sets
+func (rg *ruleGen) wideOr() Rule {
+	g := rg.g
+	k := 3 + g.n(4)
+	var alts []Rule
+	for i := 0; i < k; i++ {
+		m := 1 + g.n(3)
+		var lits []Rule
+		for j := 0; j < m; j++ {
+			l := rg.atom()
+			if g.coin(0.3) {
+				l = Rule{Not: &Rule{Atom: l.Atom}}
+			}
+			lits = append(lits, l)
+		}
+		if m == 1 {
+			alts = append(alts, lits[0])
+		} else {
+			alts = append(alts, Rule{And: lits})
+		}
+	}
+	rg.used["wideOr"]++
+	if g.coin(0.25) {
+		// the dual spelling: not(and(not a1, ...))
+		var negs []Rule
+		for _, a := range alts {
+			x := a
+			negs = append(negs, Rule{Not: &x})
+		}
+		return Rule{Not: &Rule{And: negs}}
+	}
+	return Rule{Or: alts}
+}
+
 // rule draws a formula whose expansion stays small enough to compile in seconds
 func (rg *ruleGen) rule(depth int) Rule {
+	if depth >= 2 && rg.g.coin(0.2) {
+		for k := 0; k < 20; k++ {
+			r := rg.wideOr()
+			if branches(r, false) <= maxBranches*2 {
+				return r
+			}
+		}
+	}
 	for {
 		r := rg.rule0(depth)
 		if branches(r, false) <= maxBranches {
